@@ -292,12 +292,15 @@ def lsq_cost(spec):
 
 
 def witness(lo, hi, x, D):
-    """dupper and the candidate exactly as minimize.py computes them when boxQP returns dx = dupper."""
+    """dupper, the unclipped x + D*dx and its clip, with the numpy expressions of minimize.py, for dx = dupper."""
     lo = np.array([[lo]]); hi = np.array([[hi]]); x = np.array([[x]]); D = np.array([[D]])
     dupper = (hi - x) / D
     dx = dupper.copy()
     xnew = x + D * dx
-    return "%s %s %s" % (f2h(dupper.item()), f2h(xnew.item()), "outside" if xnew.item() > hi.item() else "inside")
+    xc = xnew.copy()
+    np.clip(xc, lo, hi, out=xc)
+    return "%s %s %s %s %s" % (f2h(dupper.item()), f2h(xnew.item()), "outside" if xnew.item() > hi.item() else "inside",
+                               f2h(xc.item()), "outside" if (xc.item() > hi.item() or xc.item() < lo.item()) else "inside")
 
 
 def main():
